@@ -124,6 +124,13 @@ def scenarios(tier: str) -> List[Dict[str, Any]]:
                     out.append(dict(tc=tc, grace=grace, flip=flip, pre=pre,
                                     leave=[[how, "D"], ev_send("S", fr(tc, P.MT_SUBSCRIBE, P.p_sub(1004), src_mod_id=IDS["S"]))],
                                     orders=True, leavers=[("D", pos)], label=f"logger/write-ackcopy/{how}"))
+        # two loggers are gone in the same round and it is the copy of somebody's ACK that finds them: the notice about the first is
+        # delivered (to the second, which listens to everything) while the copies are still being handed out
+        for h1, h2 in itertools.product(("fin", "rst"), repeat=2):
+            pre = position_events(tc, "D", "logger") + position_events(tc, "E", "logger")
+            out.append(dict(tc=tc, grace=grace, flip=flip, pre=pre,
+                            leave=[[h1, "D"], [h2, "E"], ev_send("S", fr(tc, P.MT_SUBSCRIBE, P.p_sub(1004), src_mod_id=IDS["S"]))],
+                            orders=True, leavers=[("D", "logger"), ("E", "logger")], label=f"two-loggers/write-ackcopy/{h1}+{h2}"))
         # refusal at connect
         pre = position_events(tc, "D", "accepted")
         for label, frame in (("range", v2(tc, "D", mid=150)), ("range-neg", v2(tc, "D", mid=-3)), ("dup-id", v2(tc, "D", mid=IDS["S"])),
